@@ -76,7 +76,8 @@ def gen_ids(rng: Any, stats: dict) -> list[str]:
         stats["probe.case_variant_pair"] = 1
     elif kind == "prefixlike":
         comp = rng.choice(["broker", "orchestrator", "state_backend", "trigger", "client"])
-        ids = [base, f"{_prefix_of(base)}__{comp}_x", f"{_prefix_of(base)}__{comp}"]
+        # shaped like a component prefix of `base`, or exactly like its bare storage prefix '<sanitised>_<hash>'
+        ids = [base] + rng.sample([f"{_prefix_of(base)}__{comp}_x", f"{_prefix_of(base)}__{comp}", _prefix_of(base), _prefix_of(base).lower()], 2)
         stats["probe.prefix_shaped_id"] = 1
     elif kind == "meta":
         ids = [base, base + "'; DROP TABLE x;--", base + '"%_', "%", "_"]
